@@ -60,7 +60,8 @@ def alphabet(nq, nn, reduced=False):
     if nq < 2:
         item_menu = [(), (J[0],), (J[0], J[1]), (J[0], NONE, J[1]),
                      (J[1], J[0]), (J[0], S(J[1], J[2])), (NONE,),
-                     (J[0], J[1], J[2]), (S(), J[1])]
+                     (J[0], J[1], J[2]), (S(), J[1]), (J[0], S(), J[1]),
+                     (J[0], S(NONE), J[1], NONE, J[2])]
         if qprev:
             item_menu += [(qprev[0],), (qprev[0], J[3]), (J[3], qprev[0])]
         req_menu = [None, J[3], T(J[2], L(J[3]))] + qprev[:1]
@@ -74,7 +75,9 @@ def alphabet(nq, nn, reduced=False):
     for k in range(nq):
         others = [Q(o) for o in range(nq) if o != k]
         menu = [(J[2],), (J[2], J[3]), (NONE,), (), (S(J[2], J[3]),),
-                (J[3], NONE, J[2]), (S(),)] + [(o,) for o in others]
+                (J[3], NONE, J[2]), (S(),), (J[2], S(), J[3]),
+                (S(NONE), J[2]), (NONE, J[3], S(), NONE, J[2])] \
+            + [(o,) for o in others]
         if reduced:
             menu = menu[:4]
         for items in menu:
